@@ -23,9 +23,12 @@ import (
 	"verif/harness/internal/tr"
 )
 
+// sv is stored by pointer: a caller may change the size its value reports while the value sits in
+// the cache (the cache charges what Size() said when the value was stored) and may store the very
+// same value again after it grew.
 type sv struct{ id, size int }
 
-func (s sv) Size() int { return s.size }
+func (s *sv) Size() int { return s.size }
 
 type act struct {
 	Op    string `json:"op"`
@@ -35,6 +38,7 @@ type act struct {
 	C     int    `json:"c"`
 	Cap   int    `json:"cap"`
 	Sized bool   `json:"sized"`
+	Same  bool   `json:"-"` // store the value object that was stored for this key last time, grown to S
 }
 
 func (a act) rec() tr.E {
@@ -45,6 +49,8 @@ func (a act) rec() tr.E {
 		return tr.E{"op": a.Op, "k": a.K}
 	case "setcap":
 		return tr.E{"op": a.Op, "c": a.C}
+	case "mut":
+		return tr.E{"op": a.Op, "k": a.K, "s": a.S}
 	}
 	return tr.E{"op": a.Op}
 }
@@ -78,6 +84,24 @@ type lru interface {
 type sizedLRU struct {
 	c    *cache.LRUCache
 	kind int
+	lmu  sync.Mutex
+	last map[int]*sv // the value object stored last for each key (harness bookkeeping of its own calls)
+}
+
+// val returns the value object to store for a: a fresh one, or the previously stored one grown in place
+func (l *sizedLRU) val(a *act) *sv {
+	l.lmu.Lock()
+	defer l.lmu.Unlock()
+	if a.Same {
+		if p := l.last[a.K]; p != nil {
+			p.size = a.S
+			a.V = p.id
+			return p
+		}
+	}
+	p := &sv{a.V, a.S}
+	l.last[a.K] = p
+	return p
 }
 
 func hit(ok bool, v int) tr.E { return tr.E{"ok": ok, "v": v} }
@@ -86,30 +110,38 @@ func (l *sizedLRU) do(a act) interface{} {
 	k := mkKey(l.kind, a.K)
 	switch a.Op {
 	case "set":
-		l.c.Set(k, sv{a.V, a.S})
+		l.c.Set(k, l.val(&a))
 		return 0
 	case "setx":
-		rem := l.c.SetAndGetRemoved(k, sv{a.V, a.S})
+		rem := l.c.SetAndGetRemoved(k, l.val(&a))
 		r := make([]int, 0, len(rem))
 		for _, x := range rem {
-			r = append(r, x.(sv).id)
+			r = append(r, x.(*sv).id)
 		}
 		return r
 	case "setnx":
-		l.c.SetIfAbsent(k, sv{a.V, a.S})
+		l.c.SetIfAbsent(k, &sv{a.V, a.S})
+		return 0
+	case "mut":
+		// the value object stored for k changes what Size() reports; the cache is not told
+		l.lmu.Lock()
+		if p := l.last[a.K]; p != nil {
+			p.size = a.S
+		}
+		l.lmu.Unlock()
 		return 0
 	case "get":
 		v, ok := l.c.Get(k)
 		if !ok {
 			return hit(false, 0)
 		}
-		return hit(true, v.(sv).id)
+		return hit(true, v.(*sv).id)
 	case "peek":
 		v, ok := l.c.Peek(k)
 		if !ok {
 			return hit(false, 0)
 		}
-		return hit(true, v.(sv).id)
+		return hit(true, v.(*sv).id)
 	case "exist":
 		return l.c.Exist(k)
 	case "del":
@@ -132,7 +164,7 @@ func (l *sizedLRU) obs() tr.E {
 	vals := make([]int, 0, len(items))
 	ks := make([]int, 0, len(keys))
 	for i, it := range items {
-		vals = append(vals, it.Value.(sv).id)
+		vals = append(vals, it.Value.(*sv).id)
 		if i < len(keys) && it.Key != keys[i] {
 			// Items and Keys disagree on order: make it visible to the spec
 			vals[len(vals)-1] = -1
@@ -190,6 +222,8 @@ func (l *tinyLRU) do(a act) interface{} {
 	case "setcap":
 		l.c.SetCapacity(int64(a.C))
 		return 0
+	case "mut":
+		return 0
 	}
 	tr.Fatal("unknown op %q", a.Op)
 	return nil
@@ -237,7 +271,7 @@ func unKey(k interface{}) int {
 
 func newLRU(sized bool, capa, kind int) lru {
 	if sized {
-		return &sizedLRU{cache.NewLRUCache(int64(capa)), kind}
+		return &sizedLRU{c: cache.NewLRUCache(int64(capa)), kind: kind, last: map[int]*sv{}}
 	}
 	return &tinyLRU{tiny.NewLRUCache(int64(capa)), kind}
 }
@@ -256,6 +290,13 @@ func runSeq(w *tr.W, src string, capa int, sized bool, kind int, acts []act) {
 	l := newLRU(sized, capa, kind)
 	w.Emit(tr.E{"ev": "reset", "cap": capa, "sized": sized, "threads": 1, "src": src, "keykind": kind})
 	for _, a := range acts {
+		if sl, ok := l.(*sizedLRU); ok && a.Same {
+			if p := sl.last[a.K]; p != nil { // sequential history: no lock needed
+				a.V = p.id // the same value object is stored again: its identity is what it was
+			} else {
+				a.Same = false
+			}
+		}
 		r := safeDo(l, a)
 		w.Emit(tr.E{"ev": "call", "a": a.rec(), "r": r, "obs": l.obs()})
 	}
@@ -294,10 +335,12 @@ func randAct(rng *rand.Rand, nkeys, capa int) act {
 		s = rng.Intn(capa/2+2) + 0
 	}
 	switch x := rng.Intn(100); {
+	case x < 4:
+		return act{Op: "mut", K: k, S: s}
 	case x < 25:
-		return act{Op: "set", K: k, V: v, S: s}
+		return act{Op: "set", K: k, V: v, S: s, Same: rng.Intn(5) == 0}
 	case x < 40:
-		return act{Op: "setx", K: k, V: v, S: s}
+		return act{Op: "setx", K: k, V: v, S: s, Same: rng.Intn(5) == 0}
 	case x < 50:
 		return act{Op: "setnx", K: k, V: v, S: s}
 	case x < 65:
@@ -331,9 +374,10 @@ func runConc(w *tr.W, rng *rand.Rand, sized bool, threads, opsPer int) {
 	for t := range progs {
 		for i := 0; i < opsPer; i++ {
 			a := randAct(rng, 3, capa)
-			if a.Op == "setcap" || a.Op == "clear" {
+			if a.Op == "setcap" || a.Op == "clear" || a.Op == "mut" {
 				a = act{Op: "get", K: a.C%3 + 1}
 			}
+			a.Same = false // re-storing a grown value object is exercised in sequential histories only
 			if a.S > capa+1 {
 				a.S = capa + 1
 			}
@@ -503,7 +547,7 @@ func runWide(w *tr.W, rng *rand.Rand, variant string, shards, capa, nops int) {
 	for i := 0; i < nops; i++ {
 		a := randAct(rng, nkeys, pcap)
 		switch a.Op {
-		case "setx", "setnx", "clear", "setcap":
+		case "setx", "setnx", "clear", "setcap", "mut":
 			a.Op = "set"
 		}
 		if !sized {
@@ -547,24 +591,154 @@ func runWide(w *tr.W, rng *rand.Rand, variant string, shards, capa, nops int) {
 	}
 }
 
+// wide race rounds: a FRESH sharded cache (1..3 shards, capacity no round reaches), 2..4 goroutines
+// released together, each storing its own key (several keys collide in one shard) and reading a
+// neighbour's; afterwards every key is read back sequentially.  Events are routed to the trace of
+// the shard the public remap index assigns; each shard must be linearizable as an LRU.
+func runWideRaces(w *tr.W, rng *rand.Rand, rounds, keep int) (int, int) {
+	kept, ran := 0, 0
+	variants := []string{"wide", "widex", "tinywide", "tinywidex"}
+	for r := 0; r < rounds && kept < keep; r++ {
+		ran++
+		variant := variants[r%4]
+		shards := 1 + r%3
+		capa := 3000
+		var sizedF cache.LRUFacade
+		var tinyF tiny.LRU
+		rm := remap.NewReMap(remap.WithPrime(uint64(shards)))
+		idx := rm.SimpleIndex
+		sized := true
+		switch variant {
+		case "wide":
+			sizedF = cache.NeWideLRUCache(int64(capa), remap.WithPrime(uint64(shards)))
+		case "widex":
+			sizedF = cache.NewWideXHashLRUCache(int64(capa), remap.WithPrime(uint64(shards)))
+			idx = rm.XHashIndex
+		case "tinywide":
+			tinyF = tiny.NeWideLRU(int64(capa), remap.WithPrime(uint64(shards)))
+			sized = false
+		case "tinywidex":
+			tinyF = tiny.NewWideXHashLRU(int64(capa), remap.WithPrime(uint64(shards)))
+			idx = rm.XHashIndex
+			sized = false
+		}
+		threads := 2 + rng.Intn(3)
+		nkeys := threads + 1
+		progs := make([][]act, threads)
+		for t := range progs {
+			progs[t] = []act{{Op: "set", K: t + 1, V: 100 + t, S: 1}}
+			if rng.Intn(2) == 0 {
+				progs[t] = append(progs[t], act{Op: []string{"get", "exist", "peek"}[rng.Intn(3)], K: 1 + rng.Intn(nkeys)})
+			}
+		}
+		type sev struct {
+			seq int64
+			k   int
+			e   tr.E
+		}
+		per := make([][]sev, threads)
+		var seq int64
+		var goFlag, readyCnt int32
+		var wg sync.WaitGroup
+		for t := 0; t < threads; t++ {
+			wg.Add(1)
+			go func(t int) {
+				defer wg.Done()
+				atomic.AddInt32(&readyCnt, 1)
+				for atomic.LoadInt32(&goFlag) == 0 {
+				}
+				for _, a := range progs[t] {
+					per[t] = append(per[t], sev{atomic.AddInt64(&seq, 1), a.K, tr.E{"ev": "inv", "t": t + 1, "a": a.rec()}})
+					var r interface{}
+					func() {
+						defer func() {
+							if p := recover(); p != nil {
+								r = fmt.Sprintf("panic: %v", p)
+							}
+						}()
+						r = wideDo(sizedF, tinyF, a.K, a)
+					}()
+					per[t] = append(per[t], sev{atomic.AddInt64(&seq, 1), a.K, tr.E{"ev": "res", "t": t + 1, "r": r}})
+				}
+			}(t)
+		}
+		for atomic.LoadInt32(&readyCnt) < int32(threads) {
+			runtime.Gosched()
+		}
+		atomic.StoreInt32(&goFlag, 1)
+		wg.Wait()
+		var all []sev
+		for _, p := range per {
+			all = append(all, p...)
+		}
+		sort.Slice(all, func(i, j int) bool { return all[i].seq < all[j].seq })
+		open, overlap := 0, false
+		for _, x := range all {
+			if x.e["ev"] == "inv" {
+				open++
+				if open > 1 {
+					overlap = true
+				}
+			} else {
+				open--
+			}
+		}
+		if !overlap {
+			continue
+		}
+		kept++
+		n := int(rm.Numbs())
+		pcap := capa/n + 1
+		byShard := make([][]tr.E, n)
+		for _, x := range all {
+			sh := idx(x.k)
+			byShard[sh] = append(byShard[sh], x.e)
+		}
+		for k := 1; k <= nkeys; k++ {
+			a := act{Op: "get", K: k}
+			var r interface{}
+			func() {
+				defer func() {
+					if p := recover(); p != nil {
+						r = fmt.Sprintf("panic: %v", p)
+					}
+				}()
+				r = wideDo(sizedF, tinyF, k, a)
+			}()
+			sh := idx(k)
+			byShard[sh] = append(byShard[sh], tr.E{"ev": "callr", "a": a.rec(), "r": r})
+		}
+		for sh, evs := range byShard {
+			if len(evs) == 0 {
+				continue
+			}
+			w.Emit(tr.E{"ev": "reset", "cap": pcap, "sized": sized, "threads": threads, "src": "widerace:" + variant, "shard": sh, "shards": n, "keykind": 0})
+			for _, e := range evs {
+				w.Emit(e)
+			}
+		}
+	}
+	return ran, kept
+}
+
 func wideDo(sf cache.LRUFacade, tf tiny.LRU, key interface{}, a act) interface{} {
 	if sf != nil {
 		switch a.Op {
 		case "set":
-			sf.Set(key, sv{a.V, a.S})
+			sf.Set(key, &sv{a.V, a.S})
 			return 0
 		case "get":
 			v, ok := sf.Get(key)
 			if !ok {
 				return hit(false, 0)
 			}
-			return hit(true, v.(sv).id)
+			return hit(true, v.(*sv).id)
 		case "peek":
 			v, ok := sf.Peek(key)
 			if !ok {
 				return hit(false, 0)
 			}
-			return hit(true, v.(sv).id)
+			return hit(true, v.(*sv).id)
 		case "exist":
 			return sf.Exist(key)
 		case "del":
@@ -648,6 +822,8 @@ func main() {
 		runConc(cw, rng, i%2 == 0, 3, 4+i%3)
 	}
 	ran, kept := runRaces(cw, rng, *nrace, *nracekeep)
+	wran, wkept := runWideRaces(cw, rng, *nrace/4, *nracekeep/3)
 	cw.Close()
+	fmt.Printf("wide_race_rounds=%d wide_race_rounds_with_overlap=%d\n", wran, wkept)
 	fmt.Printf("seq_events=%d conc_events=%d race_rounds=%d race_rounds_with_overlap=%d\n", w.N(), cw.N(), ran, kept)
 }
